@@ -104,6 +104,23 @@ def check_with_take(ctx, lib, rule):
         site = site_of(fn)
         eff, m = tables.flatten(t)
         ok = m and m[0] == "match" and m[1][0] == "call" and suffix_match(m[1][1], "take") and unify(pat("@0.cstore.0"), m[1][2][0]) is not None or (m and m[0] == "match" and m[1][0] == "call" and suffix_match(m[1][1], "ConstraintStore::take"))
+        if not ok:
+            # hoisted form: `let taken = store.take(c); if let Some(c) = &taken { U::take_constraint(self, c) }; (self, taken)`
+            t = sym.Evaluator(lib, inline=lambda p_, f_: False).fn_term(fn)  # plain terms: the `let taken` is looked through
+            takes = list(dict.fromkeys(c for c in sym.calls(t) if isinstance(c[1], str) and c[1].endswith("ConstraintStore::take")))
+            hooks = [(s_, lits) for s_, lits in tables.occurrences_with_guards(t) if s_[0] == "call" and suffix_match(s_[1], "User::take_constraint")]
+            res = tables.result(t)
+            hoisted = len(takes) == 1 and len(hooks) == 1 and res == ("tuple", (("param", 0, "self"), takes[0]))
+            if hoisted:
+                TAKE = takes[0]
+                h, lits = hooks[0]
+                under_some = any(pol and l[0] in ("iflet", "matches") and TAKE in l and "Some" in str(l) for l, pol in lits)
+                hoisted = under_some and h[2][0][:2] == ("param", 0) and h[2][1] == ("proj", TAKE, "std::prelude::v1::Some", 0)
+            if hoisted:
+                ctx.ok(rule, key + "|take", site, "hoisted form: hook exactly under Some(taken), result (self, taken)")
+                ctx.ok(rule, key + "|arm=Some", site, "hoisted form")
+                ctx.ok(rule, key + "|arm=None", site, "hoisted form")
+                return
         ctx.expect(ok, rule, key + "|take", site, "take_constraint must branch on store.take(constraint)")
         if ok:
             taken = ("proj", m[1], ANY, 0)
